@@ -17,23 +17,24 @@ json="$W/overlay.json"
   nsync=0
   for f in /repo/uu/*.go; do
     case "$f" in *_test.go) continue;; esac
-    if grep -qE '^\s*(import\s+)?(\w+\s+)?"sync/atomic"' "$f"; then
-      echo "harness cannot bind: $f uses sync/atomic, whose operations the controlled scheduler does not intercept" >&2; exit 3
-    fi
-    if grep -qE '^\s*(import\s+)?"sync"' "$f"; then
+    if grep -qE '^\s*(import\s+)?(\w+\s+)?"sync(/atomic)?"' "$f"; then
       nsync=$((nsync+1))
-      sed -E 's#^(\s*(import\s+)?)"sync"#\1sync "go.lstv.dev/util/verifsync"#' "$f" > "$W/uu/$(basename "$f")"
+      sed -E -e 's#^(\s*(import\s+)?)"sync"#\1sync "go.lstv.dev/util/verifsync"#' -e 's#^(\s*(import\s+)?)"sync/atomic"#\1atomic "go.lstv.dev/util/verifsync/atomic"#' -e 's#^(\s*(import\s+)?)(\w+)\s+"sync/atomic"#\1\3 "go.lstv.dev/util/verifsync/atomic"#' -e 's#^(\s*(import\s+)?)(\w+)\s+"sync"#\1\3 "go.lstv.dev/util/verifsync"#' "$f" > "$W/uu/$(basename "$f")"
       [ $first = 1 ] || echo ','
       first=0
       printf '"%s":"%s"' "$f" "$W/uu/$(basename "$f")"
     fi
   done
   [ $first = 1 ] || echo ','
-  printf '"/repo/uu/verif_hooks.go":"%s",\n' "$V/overlay/uu/verif_hooks.go"
+  printf '"/repo/uu/verif_hooks.go":"%s",\n' "$W/uu/verif_hooks.go"
+  printf '"/repo/verifsync/atomic/atomic.go":"%s",\n' "$V/overlay/verifsync/atomic/atomic.go"
   printf '"/repo/verifsync/sched.go":"%s"\n' "$V/overlay/verifsync/sched.go"
   echo '}}'
 } > "$json"
-if [ "$nsync" = 0 ]; then echo "harness cannot bind: no file of package uu imports \"sync\" any more" >&2; exit 3; fi
+if [ "$nsync" = 0 ]; then echo "harness cannot bind: no file of package uu imports \"sync\" or \"sync/atomic\" any more (channels and other mechanisms are not intercepted)" >&2; exit 3; fi
+# hooks file: the mutex is re-created only if the tree still has it; the generator variable is required
+if ! grep -qE '^\s*random\s*=' /repo/uu/*.go; then echo "harness cannot bind: package uu has no package-level variable 'random' any more" >&2; exit 3; fi
+if grep -qE '^\s*randomMutex\s*=\s*sync\.Mutex' /repo/uu/*.go; then cp "$V/overlay/uu/verif_hooks.go" "$W/uu/verif_hooks.go"; else sed -e '/randomMutex = sync.Mutex{}/d' -e '/verifsync"/d' "$V/overlay/uu/verif_hooks.go" > "$W/uu/verif_hooks.go"; fi
 cd $V
 go build -tags verif -overlay "$json" -o "$out" ./checks/c19
 # free-running race-detector supplement (plain build, real sync, no overlay)
